@@ -402,3 +402,35 @@ Theorem gen_process_events_other : forall H ed_sign cfg clk on_health on_status 
   /\ gen_process_events H ed_sign cfg clk [EvStatusUpdate] on_health on_status bs sock buf srv ri rc st coins k events
   = Ok (sock, buf, ri, rc, on_status st, coins, k).
 Proof. intros. split; reflexivity. Qed.
+
+(* ------------------------------------------------------------------ C09 of the code as written *)
+Require Import RV.Spec.MerkleGoals.
+(* With fault injection off and sends succeeding, one wake-up of the TRANSLATED process_events on any
+   server state reachable from Server::new hands the socket exactly the specified datagrams — one per
+   accepted request, in order, each to its sender — and records exactly the specified events *)
+Theorem gen_process_events_spec : forall H ed_pk ed_sign, HashLen H -> PkLen ed_pk -> SigLen ed_sign ->
+  forall cfg lt oi oc s queue clk coins on_health on_status sent buf st events,
+    SInv H ed_pk ed_sign cfg lt oi oc s -> fault_pct cfg = 0 -> sends_ok cfg ->
+    (1 <= batch_size cfg)%nat -> (batch_size cfg <= 255)%nat ->
+    let srv := ltk_srv_value H ed_pk lt in
+    let n := batch_size cfg in
+    exists ri' rc',
+      ok_opt (omap (fun '(sock, _, ri', rc', st', _, _) => (ri', rc', snd sock, st'))
+         (gen_process_events H ed_sign cfg clk [EvMessage] on_health on_status (N.of_nat n)
+            (queue, sent) buf srv (s_ietf s) (s_classic s) st coins 0%nat events))
+      = Some (ri', rc',
+              sent ++ spec_drain_sent H ed_pk ed_sign (S (length queue)) n srv lt oi oc clk 0 queue,
+              st ++ spec_drain_stats H ed_pk ed_sign (S (length queue)) n srv lt oi oc clk 0 queue).
+Proof.
+  intros H ed_pk ed_sign HL HP HS cfg lt oi oc s queue clk coins on_health on_status sent buf st events
+         Hinv Hf Hsend Hb1 Hb2 srv n.
+  destruct (drain_spec H ed_pk ed_sign classify_wellformed HL HP HS cfg lt oi oc s queue clk coins Hinv Hf Hsend Hb1 Hb2)
+    as [s' [lg [Hpe _]]].
+  destruct Hinv as [Hcfg [Hsrv _]].
+  exists (s_ietf s'), (s_classic s'). subst n srv.
+  rewrite (gen_process_events_model H ed_sign cfg clk on_health on_status (ltk_srv_value H ed_pk lt) (s_ietf s) (s_classic s) queue sent buf st coins 0 events).
+  unfold process_events in Hpe.
+  replace (mksrv cfg (ltk_srv_value H ed_pk lt) (s_ietf s) (s_classic s)) with s
+    by (destruct s as [c sv i c0]; cbn [s_cfg s_srv_value s_ietf s_classic] in *; subst c sv; reflexivity).
+  rewrite Hpe. reflexivity.
+Qed.
